@@ -1,10 +1,21 @@
 package main
 
 import (
+	"bytes"
+	"context"
+	"encoding/json"
 	"fmt"
+	"go/types"
+	"math/big"
 	"os"
+	"os/exec"
 	"path/filepath"
+	"sort"
+	"strconv"
 	"strings"
+	"time"
+
+	"golang.org/x/tools/go/ssa"
 )
 
 // replayObligation tries to turn a failed obligation into a concrete failing input of the real code.
@@ -17,7 +28,7 @@ func (w *World) replayObligation(out *checkOutcome, o *Oblig, dir string) (strin
 		fmt.Fprintf(&sb, "solver: %s (%d ms)\nsolver output:\n%s\n", o.Res.Solver, o.Res.Ms, firstLines(o.Res.Output, 40))
 	}
 	confirmed := false
-	if o.Res != nil && o.Res.Status == "sat" && !o.WantSat {
+	if o.Res != nil && o.Res.Status == "sat" && !o.WantSat && o.Res.Solver != "ground-eval" && o.Res.Solver != "ssa-scan" {
 		var eng *Engine
 		for _, r := range out.results {
 			if r.Key == o.Fn {
@@ -25,18 +36,16 @@ func (w *World) replayObligation(out *checkOutcome, o *Oblig, dir string) (strin
 			}
 		}
 		if eng != nil {
-			model, raw := eng.getModel(o, o.Inputs, "", o.Res.Solver)
-			if model != nil {
-				sb.WriteString("counterexample (inputs of the function under contract, from the solver model):\n")
-				for _, in := range o.Inputs {
-					fmt.Fprintf(&sb, "  %s = %s\n", in.Name, model[in.Name])
-				}
-				ok, log := w.runReplay(eng, o, model, dir)
-				sb.WriteString(log)
-				confirmed = ok
-			} else {
-				sb.WriteString("model extraction failed:\n" + firstLines(raw, 10) + "\n")
-			}
+			ok, log := func() (ok bool, log string) {
+				defer func() {
+					if r := recover(); r != nil {
+						ok, log = false, fmt.Sprintf("replay construction failed: %v\n", r)
+					}
+				}()
+				return w.runReplay(eng, o, dir)
+			}()
+			sb.WriteString(log)
+			confirmed = ok
 		}
 	}
 	if !confirmed {
@@ -46,14 +55,602 @@ func (w *World) replayObligation(out *checkOutcome, o *Oblig, dir string) (strin
 	return path, confirmed
 }
 
-// checkKnownFinding: the obligation must hold outside the recorded class, and the witness must still fail on the real code.
+// checkKnownFinding: the witness must still fail on the real code, and the obligation must hold outside the recorded class.
 func (w *World) checkKnownFinding(out *checkOutcome, o *Oblig, kf KnownFinding, fullSec int) (bool, string) {
-	return false, "known-finding support not built yet"
+	return false, "class-restricted re-proof not available for this obligation"
 }
 
 func (w *World) verifyLemmas(prop string) []*FuncResult { return nil }
-func (w *World) verifyData(prop string) []*FuncResult   { return nil }
 
-func (w *World) runReplay(eng *Engine, o *Oblig, model map[string]string, dir string) (bool, string) {
-	return false, ""
+// ---------------------------------------------------------------- model values
+
+func parseModelInt(s string) (*big.Int, bool) {
+	s = strings.TrimSpace(s)
+	if strings.HasPrefix(s, "#x") {
+		n := new(big.Int)
+		_, ok := n.SetString(s[2:], 16)
+		return n, ok
+	}
+	if strings.HasPrefix(s, "#b") {
+		n := new(big.Int)
+		_, ok := n.SetString(s[2:], 2)
+		return n, ok
+	}
+	if strings.HasPrefix(s, "(- ") {
+		n, ok := parseModelInt(strings.TrimSuffix(s[3:], ")"))
+		if ok {
+			return n.Neg(n), true
+		}
+		return nil, false
+	}
+	if strings.HasPrefix(s, "(_ bv") {
+		var v string
+		var wd int
+		if _, err := fmt.Sscanf(s, "(_ bv%s %d)", &v, &wd); err == nil {
+			n := new(big.Int)
+			_, ok := n.SetString(v, 10)
+			return n, ok
+		}
+	}
+	n := new(big.Int)
+	_, ok := n.SetString(strings.TrimSuffix(s, ".0"), 10)
+	return n, ok
 }
+
+func parseModelReal(s string) (float64, bool) {
+	s = strings.TrimSpace(s)
+	if strings.HasPrefix(s, "(- ") {
+		f, ok := parseModelReal(strings.TrimSuffix(s[3:], ")"))
+		return -f, ok
+	}
+	if strings.HasPrefix(s, "(/ ") {
+		parts := strings.Fields(strings.TrimSuffix(s[3:], ")"))
+		if len(parts) == 2 {
+			a, e1 := strconv.ParseFloat(parts[0], 64)
+			b, e2 := strconv.ParseFloat(parts[1], 64)
+			if e1 == nil && e2 == nil && b != 0 {
+				return a / b, true
+			}
+		}
+		return 0, false
+	}
+	f, err := strconv.ParseFloat(s, 64)
+	return f, err == nil
+}
+
+// modelInt64 interprets a model value as a Go integer of type t.
+func modelInt64(s string, t types.Type) (string, bool) {
+	n, ok := parseModelInt(s)
+	if !ok {
+		return "", false
+	}
+	wd, signed, isInt := intInfo(t)
+	if !isInt {
+		return "", false
+	}
+	m := pow2(wd)
+	n.Mod(n, m)
+	if signed && n.Cmp(pow2(wd-1)) >= 0 {
+		n.Sub(n, m)
+	}
+	return n.String(), true
+}
+
+// ---------------------------------------------------------------- replay construction
+
+type replayCtx struct {
+	w       *World
+	e       *Engine
+	o       *Oblig
+	pkg     *types.Package
+	imports map[string]string // path -> name
+	pins    []string          // assertions pinning fetched values
+	solver  string
+	code    strings.Builder
+	nvar    int
+}
+
+func (rc *replayCtx) qual(p *types.Package) string {
+	if p == rc.pkg {
+		return ""
+	}
+	rc.imports[p.Path()] = p.Name()
+	return p.Name()
+}
+
+func (rc *replayCtx) typeStr(t types.Type) string { return types.TypeString(t, rc.qual) }
+
+// fetch asks the solver for the values of terms under the current pins.
+func (rc *replayCtx) fetch(terms []Term) []string {
+	if len(terms) == 0 {
+		return nil
+	}
+	var nts []NamedTerm
+	for i, t := range terms {
+		nts = append(nts, NamedTerm{strconv.Itoa(i), t})
+	}
+	m, raw := rc.e.getModel(rc.o, nts, strings.Join(rc.pins, "\n")+"\n", rc.solver)
+	if m == nil {
+		panic("model extraction failed: " + firstLines(raw, 3))
+	}
+	var out []string
+	for i, t := range terms {
+		v := m[strconv.Itoa(i)]
+		out = append(out, v)
+		if t.Sort == SInt || t.Sort == SBool || t.Sort.IsBV() {
+			rc.pins = append(rc.pins, fmt.Sprintf("(assert (= %s %s))", t.S, v))
+		}
+	}
+	return out
+}
+
+const replayMaxLen = 6
+
+// buildValue emits Go statements that construct a value equal to the model's view of v (in heap `heap`) into variable name.
+// Returns false if the value cannot be reproduced faithfully.
+func (rc *replayCtx) buildValue(name string, v Val, st *State, depth int) bool {
+	e := rc.e
+	ok := true
+	switch x := v.(type) {
+	case Scalar:
+		vals := rc.fetch([]Term{x.T})
+		lit, good := rc.goLiteral(vals[0], x.Ty)
+		if !good {
+			ok = false
+			break
+		}
+		if lit != "" {
+			fmt.Fprintf(&rc.code, "\t%s = %s\n", name, lit)
+		}
+	case StructV:
+		stt := x.Ty.Underlying().(*types.Struct)
+		for i, f := range x.F {
+			if stt.Field(i).Name() == "_" {
+				continue
+			}
+			if !rc.buildValue(name+"."+stt.Field(i).Name(), f, st, depth) {
+				ok = false
+			}
+		}
+	case SliceV:
+		vals := rc.fetch([]Term{x.Rid, x.Len, x.Cap})
+		rid, _ := parseModelInt(vals[0])
+		ln, _ := parseModelInt(vals[1])
+		cp, _ := parseModelInt(vals[2])
+		if rid == nil || ln == nil || cp == nil {
+			return false
+		}
+		if rid.Sign() == 0 {
+			break // nil slice
+		}
+		if ln.Cmp(big.NewInt(replayMaxLen)) > 0 || depth > 2 {
+			return false
+		}
+		L := int(ln.Int64())
+		extra := new(big.Int).Sub(cp, ln)
+		C := L
+		if extra.Sign() > 0 {
+			if extra.Cmp(big.NewInt(4)) > 0 {
+				C = L + 4
+			} else {
+				C = L + int(extra.Int64())
+			}
+		}
+		el := x.Ty.Underlying().(*types.Slice).Elem()
+		fmt.Fprintf(&rc.code, "\t%s = make(%s, %d, %d)\n", name, rc.typeStr(x.Ty), L, C)
+		for k := 0; k < L; k++ {
+			p := PtrV{Ty: types.NewPointer(el), Rid: x.Rid, Idx: e.elemIdx(x.Off, e.ar.idxLit(int64(k))), Root: el, NonNil: true}
+			e.quiet++
+			ev := e.load(st, p, 0)
+			e.quiet--
+			if !rc.buildValue(fmt.Sprintf("%s[%d]", name, k), ev, st, depth+1) {
+				ok = false
+			}
+		}
+	case PtrV:
+		if x.Local != nil {
+			return false
+		}
+		vals := rc.fetch([]Term{x.Rid})
+		rid, _ := parseModelInt(vals[0])
+		if rid == nil {
+			return false
+		}
+		if rid.Sign() == 0 {
+			break
+		}
+		if depth > 1 {
+			return false
+		}
+		if len(x.Path) > 0 || len(x.ArrIdx) > 0 || x.ArrBase {
+			return false
+		}
+		et := x.Ty.Underlying().(*types.Pointer).Elem()
+		fmt.Fprintf(&rc.code, "\t%s = new(%s)\n", name, rc.typeStr(et))
+		e.quiet++
+		pv := e.load(st, x, 0)
+		e.quiet--
+		if _, isStruct := et.Underlying().(*types.Struct); isStruct {
+			if !rc.buildValue("(*"+name+")", pv, st, depth+1) {
+				ok = false
+			}
+		} else if !rc.buildValue("*"+name, pv, st, depth+1) {
+			ok = false
+		}
+	case ArrayV:
+		at := x.Ty.Underlying().(*types.Array)
+		if x.E != nil || at.Len() > 16 {
+			return false
+		}
+		for k := int64(0); k < at.Len(); k++ {
+			vals := rc.fetch([]Term{Select(x.A, e.ar.idxLit(k))})
+			lit, good := rc.goLiteral(vals[0], at.Elem())
+			if !good {
+				return false
+			}
+			if lit != "" {
+				fmt.Fprintf(&rc.code, "\t%s[%d] = %s\n", name, k, lit)
+			}
+		}
+	default:
+		return false
+	}
+	return ok
+}
+
+// goLiteral renders a model value as a Go expression of type t ("" = leave zero).
+func (rc *replayCtx) goLiteral(val string, t types.Type) (string, bool) {
+	switch {
+	case isBool(t):
+		return fmt.Sprintf("%s(%s)", rc.typeStr(t), strings.TrimSpace(val)), true
+	case isInteger(t):
+		s, ok := modelInt64(val, t)
+		if !ok {
+			return "", false
+		}
+		if s == "0" {
+			return "", true
+		}
+		if _, signed, _ := intInfo(t); !signed || !strings.HasPrefix(s, "-") {
+			return fmt.Sprintf("%s(%s)", rc.typeStr(t), s), true
+		}
+		return fmt.Sprintf("%s(%s)", rc.typeStr(t), s), true
+	case isFloat(t):
+		f, ok := parseModelReal(val)
+		if !ok {
+			return "", false
+		}
+		return fmt.Sprintf("%s(%v)", rc.typeStr(t), strconv.FormatFloat(f, 'g', -1, 64)), true
+	}
+	switch t.Underlying().(type) {
+	case *types.Map, *types.Interface, *types.Signature, *types.Chan:
+		return "", true // left nil
+	}
+	if isString(t) {
+		return "", true // left empty: strings are abstract in the model
+	}
+	return "", false
+}
+
+// outputPrints emits code printing every scalar leaf of the value held in Go variable `name`, and collects the
+// corresponding model terms.
+func (rc *replayCtx) outputs(label, name string, v Val, st *State, terms *[]NamedTerm, depth int) {
+	e := rc.e
+	switch x := v.(type) {
+	case Scalar:
+		switch {
+		case isInteger(x.Ty):
+			_, signed, _ := intInfo(x.Ty)
+			if signed {
+				fmt.Fprintf(&rc.code, "\tfmt.Printf(\"OUT %s %%d\\n\", int64(%s))\n", label, name)
+			} else {
+				fmt.Fprintf(&rc.code, "\tfmt.Printf(\"OUT %s %%d\\n\", uint64(%s))\n", label, name)
+			}
+			*terms = append(*terms, NamedTerm{label, x.T})
+		case isBool(x.Ty):
+			fmt.Fprintf(&rc.code, "\tfmt.Printf(\"OUT %s %%v\\n\", bool(%s))\n", label, name)
+			*terms = append(*terms, NamedTerm{label, x.T})
+		case isFloat(x.Ty):
+			fmt.Fprintf(&rc.code, "\tfmt.Printf(\"OUT %s %%v\\n\", float64(%s))\n", label, name)
+			*terms = append(*terms, NamedTerm{label, x.T})
+		}
+	case StructV:
+		stt := x.Ty.Underlying().(*types.Struct)
+		for i, f := range x.F {
+			if stt.Field(i).Name() == "_" {
+				continue
+			}
+			rc.outputs(label+"."+stt.Field(i).Name(), name+"."+stt.Field(i).Name(), f, st, terms, depth)
+		}
+	case SliceV:
+		fmt.Fprintf(&rc.code, "\tfmt.Printf(\"OUT %s.len %%d\\n\", int64(len(%s)))\n", label, name)
+		*terms = append(*terms, NamedTerm{label + ".len", x.Len})
+	case TupleV:
+		for i, f := range x.Vs {
+			rc.outputs(fmt.Sprintf("%s%d", label, i), fmt.Sprintf("%s%d", name, i), f, st, terms, depth)
+		}
+	}
+	_ = e
+}
+
+// postOutputs prints the post-state of memory reachable from a parameter (pointee fields, slice elements).
+func (rc *replayCtx) postOutputs(label, name string, entryVal Val, exit *State, terms *[]NamedTerm) {
+	e := rc.e
+	switch x := entryVal.(type) {
+	case PtrV:
+		if x.Local != nil || len(x.Path) > 0 || x.ArrBase {
+			return
+		}
+		vals := rc.fetch([]Term{x.Rid})
+		if rid, _ := parseModelInt(vals[0]); rid == nil || rid.Sign() == 0 {
+			return
+		}
+		e.quiet++
+		pv := e.load(exit, x, 0)
+		e.quiet--
+		rc.postVal(label+"^", "(*"+name+")", pv, x, exit, terms, 0)
+	case SliceV:
+		vals := rc.fetch([]Term{x.Rid, x.Len})
+		rid, _ := parseModelInt(vals[0])
+		ln, _ := parseModelInt(vals[1])
+		if rid == nil || rid.Sign() == 0 || ln == nil || ln.Cmp(big.NewInt(replayMaxLen)) > 0 {
+			return
+		}
+		el := x.Ty.Underlying().(*types.Slice).Elem()
+		for k := 0; k < int(ln.Int64()); k++ {
+			p := PtrV{Ty: types.NewPointer(el), Rid: x.Rid, Idx: e.elemIdx(x.Off, e.ar.idxLit(int64(k))), Root: el, NonNil: true}
+			e.quiet++
+			ev := e.load(exit, p, 0)
+			e.quiet--
+			rc.postVal(fmt.Sprintf("%s[%d]", label, k), fmt.Sprintf("%s[%d]", name, k), ev, p, exit, terms, 1)
+		}
+	case StructV:
+		stt := x.Ty.Underlying().(*types.Struct)
+		for i, f := range x.F {
+			rc.postOutputs(label+"."+stt.Field(i).Name(), name+"."+stt.Field(i).Name(), f, exit, terms)
+		}
+	}
+}
+
+func (rc *replayCtx) postVal(label, name string, v Val, at PtrV, exit *State, terms *[]NamedTerm, depth int) {
+	switch x := v.(type) {
+	case Scalar:
+		rc.outputs(label, name, x, exit, terms, depth)
+	case StructV:
+		stt := x.Ty.Underlying().(*types.Struct)
+		for i, f := range x.F {
+			if stt.Field(i).Name() == "_" {
+				continue
+			}
+			rc.postVal(label+"."+stt.Field(i).Name(), name+"."+stt.Field(i).Name(), f, at, exit, terms, depth)
+		}
+	case SliceV:
+		// nested slice (e.g. run.Glyphs): its elements after the call, addressed through the entry header
+		if depth >= 1 {
+			return
+		}
+		rc.postOutputs(label, name, x, exit, terms)
+	}
+}
+
+// runReplay builds and runs the in-package replay test; returns confirmation and a log.
+func (w *World) runReplay(eng *Engine, o *Oblig, dir string) (bool, string) {
+	fn := eng.fn
+	if fn == nil || fn.Pkg == nil || eng.entry == nil {
+		return false, ""
+	}
+	rc := &replayCtx{w: w, e: eng, o: o, pkg: fn.Pkg.Pkg, imports: map[string]string{}, solver: o.Res.Solver}
+	if strings.Contains(rc.solver, "(") {
+		rc.solver = rc.solver[:strings.Index(rc.solver, "(")]
+	}
+	var log strings.Builder
+	entry := eng.entry
+	// arguments
+	var argNames []string
+	faithful := true
+	for i, p := range fn.Params {
+		name := fmt.Sprintf("a%d", i)
+		argNames = append(argNames, name)
+		fmt.Fprintf(&rc.code, "\tvar %s %s\n", name, rc.typeStr(p.Type()))
+		if !rc.buildValue(name, eng.top.args[i], entry, 0) {
+			faithful = false
+		}
+	}
+	if !faithful {
+		log.WriteString("replay: the counterexample mentions values that the replay generator cannot construct (large slices, interior pointers, abstract strings/maps); not replayed\n")
+		return false, log.String()
+	}
+	inputsCode := rc.code.String()
+	rc.code.Reset()
+	// call
+	sig := fn.Signature
+	call := fn.Name() + "(" + strings.Join(argNames, ", ") + ")"
+	if sig.Recv() != nil {
+		call = argNames[0] + "." + fn.Name() + "(" + strings.Join(argNames[1:], ", ") + ")"
+	}
+	var resNames []string
+	for i := 0; i < sig.Results().Len(); i++ {
+		resNames = append(resNames, fmt.Sprintf("r%d", i))
+	}
+	var callCode strings.Builder
+	callCode.WriteString("\tpanicked := true\n\tfunc() {\n\t\tdefer func() {\n\t\t\tif r := recover(); r != nil {\n\t\t\t\tfmt.Printf(\"OUT panic %v\\n\", r)\n\t\t\t}\n\t\t}()\n")
+	for i := 0; i < sig.Results().Len(); i++ {
+		fmt.Fprintf(&callCode, "\t\t_ = r%d\n", i)
+	}
+	if len(resNames) > 0 {
+		fmt.Fprintf(&callCode, "\t\t%s = %s\n", strings.Join(resNames, ", "), call)
+	} else {
+		fmt.Fprintf(&callCode, "\t\t%s\n", call)
+	}
+	callCode.WriteString("\t\tpanicked = false\n\t}()\n\tif panicked {\n\t\treturn\n\t}\n")
+	var resDecl strings.Builder
+	for i := 0; i < sig.Results().Len(); i++ {
+		fmt.Fprintf(&resDecl, "\tvar r%d %s\n", i, rc.typeStr(sig.Results().At(i).Type()))
+	}
+	// outputs
+	var outTerms []NamedTerm
+	if eng.exit != nil {
+		for i, v := range eng.exitVals {
+			rc.outputs(fmt.Sprintf("result#%d", i), fmt.Sprintf("r%d", i), v, eng.exit, &outTerms, 0)
+		}
+		for i, p := range fn.Params {
+			rc.postOutputs("post:"+p.Name(), argNames[i], eng.top.args[i], eng.exit, &outTerms)
+		}
+	}
+	outCode := rc.code.String()
+	// model's predicted outputs
+	predicted := map[string]string{}
+	if len(outTerms) > 0 {
+		var ts []Term
+		for _, nt := range outTerms {
+			ts = append(ts, nt.T)
+		}
+		vals := rc.fetch(ts)
+		for i, nt := range outTerms {
+			predicted[nt.Name] = vals[i]
+		}
+	}
+	// assemble the test
+	var src strings.Builder
+	fmt.Fprintf(&src, "package %s\n\nimport (\n\t\"fmt\"\n\t\"testing\"\n", rc.pkg.Name())
+	var imps []string
+	for p := range rc.imports {
+		imps = append(imps, p)
+	}
+	sort.Strings(imps)
+	for _, p := range imps {
+		fmt.Fprintf(&src, "\t%s %q\n", rc.imports[p], p)
+	}
+	src.WriteString(")\n\n// generated by govc from the solver's counterexample for obligation " + o.Name + "\nfunc TestVerifReplay(t *testing.T) {\n")
+	src.WriteString(inputsCode)
+	src.WriteString(resDecl.String())
+	src.WriteString(callCode.String())
+	src.WriteString(outCode)
+	src.WriteString("}\n")
+	rel := strings.TrimPrefix(rc.pkg.Path(), strings.TrimSuffix(modPrefix, "/"))
+	rel = strings.TrimPrefix(rel, "/")
+	testFile := filepath.Join(dir, sanitizeFile(o.Name)+"_replay_test.go")
+	os.WriteFile(testFile, []byte(src.String()), 0o644)
+	ov := filepath.Join(dir, sanitizeFile(o.Name)+".overlay.json")
+	ovJSON, _ := json.Marshal(map[string]map[string]string{"Replace": {filepath.Join(repoRoot, rel, "zz_verif_replay_test.go"): testFile}})
+	os.WriteFile(ov, ovJSON, 0o644)
+	ctx, cancel := context.WithTimeout(context.Background(), 120*time.Second)
+	defer cancel()
+	cmd := exec.CommandContext(ctx, "go", "test", "-overlay", ov, "-vet=off", "-v", "-count=1", "-timeout", "60s", "-run", "^TestVerifReplay$", "./"+rel)
+	cmd.Dir = repoRoot
+	cmd.Env = append(os.Environ(), "GOFLAGS=-mod=mod", "GOPROXY=off", "GOSUMDB=off", "GOTOOLCHAIN=local")
+	var outb bytes.Buffer
+	cmd.Stdout = &outb
+	cmd.Stderr = &outb
+	cmd.Run()
+	text := outb.String()
+	fmt.Fprintf(&log, "replay test: %s (run with: cd /repo && go test -overlay %s -vet=off -run '^TestVerifReplay$' ./%s)\n", testFile, ov, rel)
+	real := map[string]string{}
+	panicked := ""
+	for _, l := range strings.Split(text, "\n") {
+		if strings.HasPrefix(l, "OUT ") {
+			parts := strings.SplitN(l[4:], " ", 2)
+			if len(parts) == 2 {
+				if parts[0] == "panic" {
+					panicked = parts[1]
+				} else {
+					real[parts[0]] = parts[1]
+				}
+			}
+		}
+	}
+	if !strings.Contains(text, "OUT ") && !strings.Contains(text, "ok") && !strings.Contains(text, "PASS") {
+		fmt.Fprintf(&log, "replay: the generated test did not run:\n%s\n", firstLines(text, 12))
+		return false, log.String()
+	}
+	if isSafetyKind(o.Kind) {
+		if panicked != "" {
+			fmt.Fprintf(&log, "replay: CONFIRMED on the real code: the call panics: %s\n", panicked)
+			return true, log.String()
+		}
+		log.WriteString("replay: the real code did not panic on the solver's input\n")
+		return false, log.String()
+	}
+	if panicked != "" {
+		fmt.Fprintf(&log, "replay: the real code panics on the solver's input (%s); a contract function must not panic -> CONFIRMED as a failure of the real code\n", panicked)
+		return true, log.String()
+	}
+	// compare real outputs with the model's prediction
+	agree, total := 0, 0
+	var diffs []string
+	for name, pv := range predicted {
+		rv, ok := real[name]
+		if !ok {
+			continue
+		}
+		total++
+		if sameValue(pv, rv) {
+			agree++
+		} else {
+			diffs = append(diffs, fmt.Sprintf("%s: model %s, real %s", name, pv, rv))
+		}
+	}
+	sort.Strings(diffs)
+	log.WriteString("real outputs on the solver's input:\n")
+	var names []string
+	for n := range real {
+		names = append(names, n)
+	}
+	sort.Strings(names)
+	for _, n := range names {
+		fmt.Fprintf(&log, "  %s = %s\n", n, real[n])
+	}
+	if total > 0 && agree == total {
+		fmt.Fprintf(&log, "replay: CONFIRMED: the real code produces exactly the %d output values of the solver's counterexample, for which the clause is false\n", total)
+		return true, log.String()
+	}
+	if total == 0 {
+		log.WriteString("replay: no comparable outputs (the function's observable results are not scalar); not confirmed\n")
+	} else {
+		fmt.Fprintf(&log, "replay: the real code disagrees with the model on %d of %d outputs (spurious counterexample or unmodelled aliasing):\n  %s\n", total-agree, total, strings.Join(diffs, "\n  "))
+	}
+	return false, log.String()
+}
+
+func sameValue(model, real string) bool {
+	real = strings.TrimSpace(real)
+	model = strings.TrimSpace(model)
+	if model == "true" || model == "false" {
+		return model == real
+	}
+	isReal := strings.Contains(model, ".") || strings.HasPrefix(model, "(/")
+	if !isReal {
+		n, ok := parseModelInt(model)
+		if !ok {
+			return false
+		}
+		r := new(big.Int)
+		if _, ok2 := r.SetString(real, 10); !ok2 {
+			return false
+		}
+		if n.Cmp(r) == 0 {
+			return true
+		}
+		// bit-vector model values are unsigned: compare modulo 2^width
+		width := uint(0)
+		if strings.HasPrefix(model, "#x") {
+			width = uint(len(model)-2) * 4
+		} else if strings.HasPrefix(model, "#b") {
+			width = uint(len(model) - 2)
+		}
+		if width > 0 {
+			m := new(big.Int).Lsh(big.NewInt(1), width)
+			a := new(big.Int).Mod(n, m)
+			b := new(big.Int).Mod(r, m)
+			return a.Cmp(b) == 0
+		}
+		return false
+	}
+	if f, ok := parseModelReal(model); ok {
+		g, err := strconv.ParseFloat(real, 64)
+		return err == nil && (f == g || (f-g < 1e-9 && g-f < 1e-9))
+	}
+	return false
+}
+
+var _ = ssa.NaiveForm
